@@ -426,6 +426,11 @@ class Generator:
                         spec.novis = True
                     elif cmd == "view":
                         spec.view = True
+                    elif cmd == "noview":
+                        # the current case is not exported into the caller view (a clause that is a known finding must not be assumed by callers)
+                        if case is None:
+                            raise RuntimeError("noview outside a case in %s" % self.unit_path)
+                        case["noview"] = True
                     elif cmd == "panic":
                         spec.panic = arg
                     elif cmd == "panicwhen":
@@ -1108,6 +1113,11 @@ class Generator:
         req = list(spec.requires)
         ens = [t for _, t in spec.ensures]
         for c in spec.cases:
+            if c.get("noview"):
+                continue
+            # a case's own preconditions bind the caller in that case
+            for t in c["requires"]:
+                req.append("(%s) ==> (%s)" % (c["when"], t.strip().rstrip(",")))
             for _, t in c["ensures"]:
                 ens.append("(%s) ==> (%s)" % (c["when"], t.strip().rstrip(",")))
         spec_text = ""
